@@ -662,7 +662,13 @@ class Broker(banana.Banana, referenceable.Referenceable):
         if delivery:
             if (self.tub and self.tub.logLocalFailures) or not self.tub:
                 # the 'not self.tub' case is for unit tests
-                delivery.logFailure(f)
+                try:
+                    delivery.logFailure(f)
+                except Exception:
+                    # the log entry formats the target and the arguments,
+                    # whose __repr__ is application code: the caller must
+                    # get its error whatever that does
+                    log.err()
         if reqID != 0:
             assert self.activeLocalCalls[reqID]
             self.send(call.ErrorSlicer(reqID, f))
